@@ -24,11 +24,18 @@ func parseJSON(b []byte) (interface{}, bool) {
 	return v, true
 }
 
+// Duplicated keys cannot live in a decoded tree; a member whose key carries one of the two
+// placeholder prefixes is rendered under the bare key: dupFirst sorts before, dupLast after the
+// ordinary (ASCII letter) keys, so the duplicate lands before / after the real member.
+const dupFirst, dupLast = "\x00dup:", "~dup~"
+
 func render(v interface{}) []byte {
 	b, err := json.Marshal(v)
 	if err != nil {
 		return []byte("null")
 	}
+	b = bytes.ReplaceAll(b, []byte(`"\u0000dup:`), []byte(`"`))
+	b = bytes.ReplaceAll(b, []byte(`"`+dupLast), []byte(`"`))
 	return b
 }
 
@@ -61,14 +68,14 @@ func keysOf(m map[string]interface{}) []string {
 
 // slot is one member of an object or one element of an array.
 type slot struct {
-	obj  map[string]interface{}
-	key  string
-	arr  *[]interface{} // pointer to the slice header inside its parent (see slots)
-	idx  int
-	set  func(interface{})
-	del  func()
+	obj    map[string]interface{}
+	key    string
+	arr    *[]interface{} // pointer to the slice header inside its parent (see slots)
+	idx    int
+	set    func(interface{})
+	del    func()
 	setArr func([]interface{}) // arrays: store a new slice into the parent
-	path string
+	path   string
 }
 
 func (s slot) get() interface{} {
@@ -141,7 +148,9 @@ var delimPool = []string{",", "|", "\t", ";", " ", "*", "~", ":", "^", "\"", "'"
 var jsPool = []string{"", "(", "{", "}", "var", "a +", "1", "'x'", "null", "undefined", "0/0", "1/0", "-1/0", "[]", "({})", "[1,2,[3]]", "({a:{b:[1]}})", "function(){}", "(function(){})",
 	"new Date(0)", "Symbol('x')", "throw 1", "throw new Error('x')", "JSON.parse('{')", "JSON.parse(_node)", "_node", "a.b.c", "a", "this", "eval('1')", "(() => 1)()", "`x${1}`",
 	"let a = 1; a", "var JSON = 1; JSON", "Math = 0", "Object.freeze(this); 1", "delete this.JSON; 1", "x = 5", "new Array(5)", "9007199254740993", "1e400", "-0", "'\\ud800'",
-	"new Proxy({}, {})", "new Uint8Array(3)", "Promise.resolve(1)", "/re/g", "BigInt ? 1 : 2", "(function f(n){return n?f(n-1):0})(100)", "[1,2,3].map(function(x){return x*2})",
+	"new Proxy({}, {})", "new Uint8Array(3)", "Promise.resolve(1)", "Promise.reject(1)", "Promise.reject(new Error('x'))", "new Promise(function(){})", "(async function(){return 1})()", "(async function(){throw 1})()",
+	"(async function(){ await new Promise(function(){}); return 1 })()", "Promise.all([])", "Promise.race([])", "({then:function(){}})", "({then:function(a){a(1)}})", "new Promise(function(a){a(new Promise(function(){}))})",
+	"Promise.resolve(1).then(function(x){return x+1})", "var p=new Promise(function(){}); [p,p]", "/re/g", "BigInt ? 1 : 2", "(function f(n){return n?f(n-1):0})(100)", "[1,2,3].map(function(x){return x*2})",
 	"({toString:function(){throw 1}})", "({valueOf:function(){return {}}})", "Object.create(null)"}
 
 // jsPoolMapSet: scripts whose completion value is a Map or Set -- outside the guard js_no_map_set:
@@ -188,9 +197,14 @@ func mutateSchema(r *vh.Rng, root *interface{}, guard bool) string {
 		return "emptied"
 	}
 	for try := 0; try < 8; try++ {
-		switch r.Pick(17) {
+		switch r.Pick(19) {
 		case 16:
 			return xpathDynamicMutation(r, root)
+		case 17, 18:
+			if k := dupKeyMutation(r, root); k != "" {
+				return k
+			}
+			continue
 		case 0:
 			s := ss[r.Pick(len(ss))]
 			s.del()
@@ -490,6 +504,125 @@ func addTemplateMutation(r *vh.Rng, root *interface{}, guard bool) string {
 		td[fmt.Sprintf("L%d", d)] = map[string]interface{}{"xpath": "."}
 		ob["chain"] = ref("L0")
 		return "template-chain"
+	}
+}
+
+// badify damages a (copy of a) section the way the JSON schema would reject: zero / negative
+// counts and bounds, null or retyped lists, retyped members.
+func badify(r *vh.Rng, v interface{}, depth int) interface{} {
+	switch x := v.(type) {
+	case map[string]interface{}:
+		for _, k := range keysOf(x) {
+			switch k {
+			case "rows", "by_rows", "min", "max", "index", "start_pos", "length", "line_index", "component_index", "data_row_index", "header_row_index":
+				if r.Chance(0.7) {
+					x[k] = num(r.PickStr("0", "-1", "-5", "0", "-9223372036854775808"))
+					continue
+				}
+			case "records", "child_records", "envelopes", "child_envelopes", "segment_declarations", "child_segments", "columns", "elements", "args", "array":
+				if r.Chance(0.25) {
+					x[k] = []interface{}{nil, nil}[0:r.Pick(2)]
+					if r.Chance(0.5) {
+						x[k] = nil
+					}
+					continue
+				}
+			}
+			if r.Chance(0.08) {
+				vals := []interface{}{nil, true, num("0"), "", []interface{}{}, map[string]interface{}{}, "x"}
+				x[k] = vals[r.Pick(len(vals))]
+				continue
+			}
+			x[k] = badify(r, x[k], depth+1)
+		}
+		if depth > 0 && r.Chance(0.1) {
+			x["rows"] = num(r.PickStr("0", "-1"))
+		}
+		return x
+	case []interface{}:
+		for i := range x {
+			x[i] = badify(r, x[i], depth+1)
+		}
+		if len(x) > 0 && r.Chance(0.1) {
+			x[r.Pick(len(x))] = nil
+		}
+		return x
+	}
+	return v
+}
+
+func caseVariant(r *vh.Rng, k string) string {
+	switch r.Pick(4) {
+	case 0:
+		return strings.ToUpper(k)
+	case 1:
+		return strings.ToUpper(k[:1]) + k[1:]
+	case 2:
+		return strings.Replace(k, "k", "\u212a", 1) + "" // Kelvin sign folds to k
+	}
+	b := []byte(k)
+	for i := range b {
+		if r.Chance(0.4) && b[i] >= 'a' && b[i] <= 'z' {
+			b[i] -= 32
+		}
+	}
+	if string(b) == k {
+		return strings.ToUpper(k)
+	}
+	return string(b)
+}
+
+// dupKeyMutation adds a second member that json.Unmarshal decodes into the same struct field as an
+// existing one (a literal duplicate before / after it, or a letter-case variant) with damaged
+// content: what JSON-schema validation sees is not what gets loaded (class of N9).
+func dupKeyMutation(r *vh.Rng, root *interface{}) string {
+	m, ok := (*root).(map[string]interface{})
+	if !ok {
+		return ""
+	}
+	type cand struct {
+		obj map[string]interface{}
+		key string
+		top bool
+	}
+	var cs []cand
+	for _, k := range keysOf(m) {
+		if !strings.ContainsAny(k, "\x00~") {
+			cs = append(cs, cand{m, k, true}, cand{m, k, true}) // root sections twice as likely
+		}
+	}
+	for _, s := range allSlots(root) {
+		if s.obj != nil && !strings.ContainsAny(s.key, "\x00~") && s.key != "" {
+			switch s.get().(type) {
+			case map[string]interface{}, []interface{}, json.Number:
+				cs = append(cs, cand{s.obj, s.key, false})
+			}
+		}
+	}
+	if len(cs) == 0 {
+		return ""
+	}
+	c := cs[r.Pick(len(cs))]
+	bad := badify(r, clone(c.obj[c.key]), 0)
+	where := "nested"
+	if c.top {
+		where = "root"
+	}
+	switch r.Pick(4) {
+	case 0:
+		c.obj[dupFirst+c.key] = bad
+		return "dup-key-before:" + where
+	case 1:
+		c.obj[dupLast+c.key] = bad
+		return "dup-key-after:" + where
+	case 2:
+		// the validated member is the damaged one's duplicate: first bad, then the good one again
+		c.obj[dupFirst+c.key] = bad
+		c.obj[dupLast+c.key] = clone(c.obj[c.key])
+		return "dup-key-both:" + where
+	default:
+		c.obj[caseVariant(r, c.key)] = bad
+		return "dup-key-case-variant:" + where
 	}
 }
 
